@@ -1,17 +1,91 @@
 _U = TOK + ["src/http/one/RequestParser.cc", "src/http/one/ResponseParser.cc", "src/http/one/TeChunkedParser.cc", "src/http/one/Tokenizer.cc",
            "src/http/one/Parser.cc", "src/mime_header.cc", "src/MemBuf.cc", "src/http/RequestMethod.cc", "src/http/MethodType.cc",
+           # HttpHeader::parse and what it needs (unit group of C25)
            "src/HttpHeader.cc", "src/HttpHeaderTools.cc", "src/http/RegisteredHeaders.cc", "src/http/ContentLengthInterpreter.cc",
            "src/String.cc", "src/StrList.cc", "lib/util.cc", "compat/xstring.cc",
-           "src/HttpRequest.cc", "src/HttpReply.cc", "src/http/Message.cc", "src/http/StatusLine.cc", "src/MasterXaction.cc",
+           # the message objects and the per-field parsers their hdrCacheInit() runs
+           "src/HttpRequest.cc", "src/HttpReply.cc", "src/http/Message.cc", "src/http/StatusLine.cc", "src/MasterXaction.cc", "src/base/Stopwatch.cc",
+           "src/HttpHdrCc.cc", "src/HttpHdrRange.cc", "src/HttpHdrContRange.cc", "src/HttpHdrSc.cc", "src/HttpHdrScTarget.cc", "src/time/rfc1123.cc",
+           # AnyP::Uri::parse (unit group of C30)
            "src/anyp/Uri.cc", "src/anyp/UriScheme.cc", "src/anyp/ProtocolType.cc", "lib/rfc1738.cc",
            "src/SquidConfig.cc", "src/ip/Address.cc", "src/helper/ChildConfig.cc"]
+_B = "; b = fully symbolic byte (any of the 256 values); h = fully symbolic byte, case-split per hex digit (22 concrete paths + one symbolic class for the other 234 values)"
+_DQ = "; each stream delivered in one piece, split in two right before the first and right after the last symbolic byte (streams of at most 8 bytes: at every position), and byte by byte"
+_DT = "; each stream delivered in one piece, split in two at every position, and byte by byte; relaxed_header_parser in {-1,0,1}"
+_R2 = "; relaxed_header_parser in {0,1}"
+_R1 = "; relaxed_header_parser on (default)"
+_CL = "; client connection = re-stated ConnStateData/Http1::Server loop on an intercepting port (origin-form targets get their URL from the Host field)"
+_SV = "; server connection = re-stated HttpStateData loop, followed by the peer closing"
+def _e(n, q, t, rq, rt=None, **kw):
+    return (dict(name=n, bounds=q, reach=list(rq), max_samples=4, sample_every=37, **kw), dict(name=n, bounds=t, reach=list(rt or rq), max_samples=4, sample_every=211, **kw))
+_GET = "'GET / HTTP/1.1 CRLF' + "
+_OK = "'HTTP/1.1 200 OK CRLF' + "
+_RQC = "'POST / HTTP/1.1 CRLF Transfer-Encoding: chunked CRLF CRLF' + "
+_RPC = "'HTTP/1.1 200 OK CRLF Transfer-Encoding: chunked CRLF CRLF' + "
+_CH = "h '2 CRLF ab CRLF 0 CRLF CRLF' | '2' h 'CRLF ab CRLF 0 CRLF CRLF' | '1;' b b b 'CRLF X CRLF 0 CRLF CRLF' | '2 CRLF XY' b b '0 CRLF CRLF' | '1 CRLF X CRLF 0 CRLF' b b b"
+_FAM = [
+    _e("c09_req_any", "every request stream of 0..3 bytes b (relaxed_header_parser in {0,1}) | 'GET ' b b b ' HTTP/1.1 CRLF CRLF' on a forward-proxy port (relaxed_header_parser on)" + _B + _CL + _DQ,
+       "every request stream of 0..5 bytes b | 'GET ' b b b b ' HTTP/1.1 CRLF CRLF' on a forward-proxy port" + _B + _CL + _DT,
+       ("request-refused", "request-incomplete", "uri-rejected")),
+    _e("c09_req_line", "'GET' b b b 'HTTP/1.1 CRLF CRLF' | 'GET / HTTP/1.1' b b b | 'GET /' b 'HTTP/' b '.' b CRLF CRLF" + _B + _R2 + _CL + _DQ,
+       "as quick, and b b 'GET / HTTP/1.0 CRLF' b LF | b b 'T / HTTP/1.1 CRLF H: v CRLF CRLF'" + _CL + _DT, ("request-accepted", "request-refused", "request-incomplete")),
+    _e("c09_req_target", "'GET http://' b b '.a/ HTTP/1.1 CRLF CRLF' | 'GET http://h.a:' b b '/ HTTP/1.1 CRLF CRLF' | 'CONNECT ' b b ':44' b ' HTTP/1.1 CRLF CRLF'" + _B + _R1 + _CL + _DQ,
+       "as quick, and 'GET http://[fc00::' b ']' b '8/ HTTP/1.1 CRLF CRLF' | 'GET ftp://u' b 'p@h.a' b '/ HTTP/1.1 CRLF CRLF' | 'GET /' b b ' HTTP/1.0 CRLF Host: a' b CRLF CRLF" + _CL + _DT,
+       ("request-accepted", "request-refused", "uri-rejected")),
+    _e("c09_req_hdr", _GET + "'Host' b ':v CRLF X: y CRLF CRLF' | 'A: b' b b 'X: y CRLF CRLF' | 'A: b CRLF' b b 'CRLF X: y CRLF CRLF' | 'X: y CRLF' b b CRLF; pipelined: 'GET / HTTP/1.1 CRLF' b LF b 'ET / HTTP/1.1 CRLF CRLF' | "
+       + _RQC + "'0 CRLF CRLF' b b 'T / HTTP/1.0 CRLF CRLF'" + _B + _R1 + _CL + _DQ, "as quick" + _CL + _DT,
+       ("request-accepted", "request-refused", "request-header-rejected", "pipelined", "body-done")),
+    _e("c09_req_fields", "'POST / HTTP/1.1 CRLF Content-Length: 1' b 'CRLF Content-Length:' b '1 CRLF CRLF' | " + _GET + "'Range: bytes=' b '-' b 'CRLF CRLF' | " + _GET + "'Cache-Control: max-age=' b ',' b 'CRLF CRLF' | "
+       "'OPTIONS * HTTP/1.1 CRLF Max-Forwards: ' b 'CRLF Connection:' b 'close CRLF CRLF' | 'POST / HTTP/1.' b 'CRLF Transfer-Encoding:' b 'chunked CRLF CRLF 0 CRLF CRLF'" + _B + _R1 + _CL + _DQ,
+       "as quick with one more symbolic byte in each skeleton (first Content-Length value, first range position, max-age value, Max-Forwards value, after 'chunked')" + _CL + _DT,
+       ("request-accepted", "request-refused", "framing-rejected", "request-header-rejected", "body-done")),
+    _e("c09_req_body", _RQC + _CH + " with body pipe space 1; request_header_max_size symbolic in [8,44] against 'GET /abcdefgh HTTP/1.1 CRLF Host: x CRLF' b LF (relaxed_header_parser in {0,1})" + _B + _R1 + _CL + _DQ,
+       _RQC + _CH + " with body pipe space 1 or 3; request_header_max_size symbolic in [8,44] against 'GET /abcdefgh HTTP/1.1' b LF 'Host: x CRLF' b LF" + _B + _CL + _DT,
+       ("request-accepted", "request-refused", "request-incomplete", "body-done", "body-bad")),
+    _e("c09_rep_any", "every reply stream of 0..5 bytes b (relaxed_header_parser in {0,1}) | " + _RPC + "every chunked body stream of 1 byte h (relaxed_header_parser on)" + _B + _SV + _DQ,
+       "every reply stream of 0..7 bytes b | " + _RPC + "every chunked body stream of 1..2 bytes h" + _B + _SV + _DT, ("reply-accepted", "reply-refused", "truncated", "body-bad")),
+    _e("c09_rep_line", "'HTTP/1.1 ' b b b ' OK CRLF CRLF' | 'HTTP/1.' b b '200' b 'OK' b LF CRLF | 'HTTP/1.0 404 ' b b b LF CRLF | b 'TTP' b '1' b '1 200 OK CRLF CRLF' | 'ICY' b '40' b b CRLF CRLF (relaxed_header_parser in {0,1}); "
+       "1xx: 'HTTP/1.1 1' b b ' C CRLF CRLF HTTP/1.1 200 OK CRLF CRLF' | 'HTTP/1.1 100 Continue CRLF' b LF 'HTTP/1.' b ' 200 OK CRLF CRLF' (relaxed_header_parser on); "
+       "reply_header_max_size symbolic in [8,44] against 'HTTP/1.1 200 OK CRLF Server: abcdefg CRLF' b LF (relaxed_header_parser in {0,1})" + _B + _SV + _DQ,
+       "as quick; the limit skeleton is 'HTTP/1.1 200 OK' b LF 'Server: abcdefg CRLF' b LF" + _SV + _DT, ("reply-accepted", "reply-refused", "1xx", "truncated", "reply-header-rejected")),
+    _e("c09_rep_hdr", _OK + "'Host' b ':v CRLF X: y CRLF CRLF' | 'A: b' b b 'X: y CRLF CRLF' | 'A: b CRLF' b b 'CRLF X: y CRLF CRLF'; 'HTTP/1.1 200 OK' b LF 'A: b' b b CRLF b LF; dates: " + _OK +
+       "'Date: Sun, 06 Nov 1994 08:49:' b b ' GMT CRLF CRLF' | 'Expires: ' b b 'CRLF CRLF' | 'Last-Modified: Sunday, 06-Nov-94 08:' b b ':37 GMT CRLF CRLF'" + _B + _R1 + _SV + _DQ,
+       "as quick; the date skeletons are " + _OK + "'Date: Sun, 06 Nov 1994 08:49:' b b ' GMT CRLF Expires: ' b b 'CRLF CRLF' | 'Date: ' b b b 'CRLF CRLF' | 'Last-Modified: Sunday, 06-Nov-94 08:' b b ':37 GMT CRLF Keep-Alive:' b 'CRLF CRLF'" + _SV + _DT,
+       ("reply-accepted", "reply-refused", "reply-header-rejected", "truncated")),
+    _e("c09_rep_fields", _OK + "'Content-Length: 1' b 'CRLF Content-Length:' b '1 CRLF CRLF ab' | 'Cache-Control: max-age=' b ',' b 'CRLF CRLF' | 'Surrogate-Control: max-age=' b ';' b 'CRLF CRLF' | "
+       "'Connection:' b 'close CRLF Content-Type: a/b' b 'CRLF CRLF'; 'HTTP/1.1 206 Partial Content CRLF Content-Range: bytes ' b '-1/' b 'CRLF CRLF'" + _B + _R1 + _SV + _DQ,
+       "as quick with one more symbolic byte in each skeleton (first Content-Length value, max-age values, last-byte position, Content-Type)" + _SV + _DT, ("reply-accepted", "reply-header-rejected")),
+    _e("c09_rep_chunked", _RPC + _CH + " | '1;a=\"' b b b '\" CRLF X CRLF 0 CRLF CRLF' | '1 CRLF X CRLF' h 'CRLF CRLF' | b 'fffffffffffffff' b 'CRLF X'; "
+       "'HTTP/1.1 200 OK CRLF Transfer-Encoding:' b 'chunked' b 'CRLF CRLF 0 CRLF CRLF'" + _B + _R1 + _SV + _DQ, "as quick" + _SV + _DT,
+       ("reply-accepted", "body-done", "body-bad", "reply-header-rejected", "truncated")),
+]
 SPEC = dict(
     harness="C09_peers.cc", units=_U,
-    unit_flags={"compat/xstring.cc": ["-Dxstrdup=vf_unused_squid_xstrdup"]},
-    entries=dict(
-        quick=[dict(name="c09_probe_req", bounds="probe", reach=["ok"]), dict(name="c09_probe_rep", bounds="probe", reach=["ok"])],
-        thorough=[]),
-    timeout=dict(quick=300, thorough=1800),
-    stubs=[],
-    outside="",
+    # xstrdup comes from the allocation layer (engine model / libc); rfc1123.cc without PIC so that its month-name table is a plain pointer array
+    unit_flags={"compat/xstring.cc": ["-Dxstrdup=vf_unused_squid_xstrdup"], "src/time/rfc1123.cc": ["-fno-pic"]},
+    native_units=["src/sbuf/Algorithms.cc"],
+    scope="kernel",
+    scope_note="kernel decided: the byte-facing layer -- Http1::RequestParser, Http1::ResponseParser, Http1::TeChunkedParser, AnyP::Uri::parse, HttpHeader::parse and the field "
+               "parsers run by HttpRequest::parseHeader()/HttpReply::parseHeader() (Content-Length, Cache-Control, Range, Content-Range, Surrogate-Control, dates, Connection), on really "
+               "constructed HttpRequest/HttpReply objects and driven through the re-stated control loops of ConnStateData::parseRequests/parseHttpRequest, Http1::Server::buildHttpRequest, "
+               "clientProcessRequest (framing part), ConnStateData::handleChunkedRequestBody and HttpStateData::processReply/processReplyHeader/decodeAndWriteReplyBody -- performs no "
+               "out-of-bounds, use-after-free or double-free access, reaches no assert()/Must()/fatal()/abort()/exit() other than a Must() that the real caller catches as a parse error, lets no "
+               "exception escape and terminates, for every value of the symbolic bytes of the listed streams under the listed deliveries, and ends every such stream in one of the states "
+               "'message accepted', 'error reply/close', 'waiting for more bytes'; gap: the glue after parsing (error page generation, ConnStateData::abortRequestParsing, connection close, "
+               "store/forwarding/adaptation, 'other transactions continue to be served'), Http::Message::parse()/sanityCheckStartLine() (used for stored and ICAP-encapsulated messages, not for "
+               "HTTP/1 peers), identity-encoded bodies (copied uninterpreted), streams longer or shaped differently than the families, TLS, effects that only the real allocator/ASan can show",
+    entries=dict(quick=[f[0] for f in _FAM], thorough=[f[1] for f in _FAM]),
+    timeout=dict(quick=900, thorough=3000),
+    stubs=["the control loops of ConnStateData/Http1::Server (client side) and HttpStateData (server side) are re-stated in the harness (struct Client, struct Server); every parsing step inside them is the real code",
+           "HttpRequest and HttpReply are really constructed (HttpRequest::FromUrlXXX with a real MasterXaction, HttpReply::Pointer::Make)",
+           "HierarchyLogEntry::HierarchyLogEntry() and ping_data::ping_data() (members of HttpRequest; log/access_log.cc and peer_select.cc not linked) defined in the harness with the same initial values",
+           "StatHist::enumInit/count are no-ops (per-header statistics histograms); const char *null_string and Ip::EnableIpv6 defined by the harness (globals.cc, ip/tools.cc not linked)",
+           "getaddrinfo/freeaddrinfo/inet_ntop: numeric-only models of harness/C30_netmodel.h in the interpreted build (native replay: real libc)",
+           "timegm(): day-count model in the harness for the interpreted build (native replay: glibc)",
+           "std::__detail::_Prime_rehash_policy::_M_next_bkt/_M_need_rehash defined in the harness and CaseInsensitiveSBufHash = constant for the interpreted build (LookupTable of HttpHdrCc/HttpHdrSc); native replay links src/sbuf/Algorithms.cc",
+           "BodyPipe buffer = real MemBuf with the stated capacity, drained after every parse as a body consumer does; HttpStateData's decodedData = real MemBuf with default limits",
+           "SquidConfig Config is the real global, zero-initialised (= defaults for uri_whitespace strip, check_hostnames off, no append_domain), relaxed_header_parser and the header size limits set by the harness; AnyP::UriScheme::Init() called as main() does",
+           "RequestParser is created in preserveParsed_ mode (a superset of the default mode's code)", "debugs() disabled"],
+    assumptions=["a Must() failure inside Http1::TeChunkedParser::parse() is a caught parse error: both real callers wrap the call in try/catch(...)"],
+    outside="everything listed under gap; configurations other than the defaults named in stubs; allocation failure",
 )
